@@ -1,6 +1,7 @@
 package sim
 
 import (
+	"strings"
 	"testing"
 	"time"
 )
@@ -97,5 +98,44 @@ func init() {
 			return s.Reach["c04_lock_triggered"] > 0 || s.Reach["c04_login_completed"] > 0
 		},
 		RequiredReach: []string{"c04_lock_triggered", "c04_login_completed", "c04_locked_login_refused", "c04_failure_login"},
+	})
+
+	loginWeights := map[string]int{
+		"login": 20, "otp_login": 8, "otp_add": 4, "otp_clear": 1, "logout": 5, "register": 4, "recover_start": 4, "recover_end": 6,
+		"confirm": 4, "oauth2_start": 4, "oauth2_callback": 4, "totp_validate": 5, "sms_validate": 5, "totp_setup": 2, "totp_confirm": 2,
+		"sms_setup": 2, "sms_confirm": 2, "totp_remove": 1, "sms_remove": 1, "probe": 6, "drop_session": 5, "copy_cookie": 2, "stale_cookie": 3,
+		"set_cookie": 1, "advance": 4, "op_lock": 1, "op_unlock": 1, "op_update_password": 1, "replay": 4, "recovery_regen": 1,
+		"everify_start": 1, "everify_end": 1, "login_get": 1, "app_session_put": 1, "recover_end_get": 1, "op_start_confirm": 1,
+		"totp_setup_get": 1, "sms_setup_get": 1,
+	}
+	loginTemplates := []string{"login_ok", "remember_cycle", "recover_flow", "register_flow", "oauth_flow", "otp_flow", "fail_burst"}
+	register(&Profile{
+		ID: "C01",
+		Config: func(r *Rng, tier string) Config {
+			c := baseConfig(r)
+			c.dropSetups("expire")
+			c.EmailAuth2FA = false
+			if r.Chance(2, 3) {
+				c.dropModules("lock")
+			}
+			if r.Chance(2, 3) {
+				c.dropModules("confirm")
+			}
+			return c
+		},
+		Gen: func(r *Rng, tier string) *genProfile {
+			return &genProfile{MaxSteps: steps(tier, 40, 100), Default: 1, FollowUp: 65, Template: 30, Templates: loginTemplates,
+				Weights: loginWeights, BadSecret: 45, ThreshGaps: 12, SmallGaps: 20, Redir: 10, FaultRate: 0}
+		},
+		Oracle: newC01Oracle,
+		Nontrivial: func(s *Stats) bool {
+			for k, v := range s.Reach {
+				if strings.HasPrefix(k, "c01_ok_") && v > 0 {
+					return true
+				}
+			}
+			return false
+		},
+		RequiredReach: []string{"c01_ok_password", "c01_ok_otp", "c01_ok_rm", "c01_ok_recover", "c01_ok_oauth2", "c01_ok_register", "c01_ok_2fa_pending"},
 	})
 }
